@@ -3,50 +3,51 @@
 package clientsets
 
 import (
-	"sync"
 	"time"
 
 	gatewayclientset "github.com/kubewharf/kubegateway/pkg/client/kubernetes"
 )
 
-// Virtual time for the readiness hysteresis: setLeaderStatus reads time.Now()
-// directly, so the harness keeps a virtual clock (milliseconds, advanced only by
-// the case) and, right before each call, places lastChange at the real instant
-// that lies "virtual age" in the past. The virtual instant at which the real code
-// stamped lastChange is remembered per status object. No logic is re-implemented:
-// when and whether lastChange is stamped is decided by setLeaderStatus alone.
-var verifStamp sync.Map // *heartbeatStatus -> int64 (virtual ms)
+// VerifNow, when set, is the clock of clientsets.go (the instrumented copy that lib/props/c09.py generates from
+// the CURRENT file replaces time.Now() by verifNow()).
+var VerifNow func() time.Time
 
-func verifStatus(c ClientSets, shard int) *heartbeatStatus {
-	if hs, ok := c.(*clientSets).leaderReady.Load(shard); ok {
-		return hs.(*heartbeatStatus)
+func verifNow() time.Time {
+	if f := VerifNow; f != nil {
+		return f()
 	}
-	return nil
+	return time.Now()
 }
 
-// VerifHeartbeatAt feeds one heartbeat outcome (or, with ok=true, the leader
-// change of clientSets.sync) to the real readiness bookkeeping at virtual time nowMs.
+// VerifHeartbeatAt feeds one heartbeat outcome (or, with ok=true, the leader change of clientSets.sync)
+// to the real readiness bookkeeping; the time is the virtual clock's.
 func VerifHeartbeatAt(c ClientSets, shard int, server string, ok bool, nowMs int64) {
-	st := verifStatus(c, shard)
-	var before time.Time
-	if st != nil {
-		if v, found := verifStamp.Load(st); found {
-			st.lastChange = time.Now().Add(-time.Duration(nowMs-v.(int64)) * time.Millisecond)
-		}
-		before = st.lastChange
-	}
 	c.(*clientSets).setLeaderStatus(shard, server, ok)
-	after := verifStatus(c, shard)
-	if after != nil && (st == nil || !after.lastChange.Equal(before)) {
-		verifStamp.Store(after, nowMs)
-	}
 }
 
-// VerifForget drops the bookkeeping of a finished case.
-func VerifForget(c ClientSets, shard int) {
-	if st := verifStatus(c, shard); st != nil {
-		verifStamp.Delete(st)
+// VerifForget: nothing to forget since the clock is virtual.
+func VerifForget(c ClientSets, shard int) {}
+
+// VerifSetLookup sets the service lookup of the periodic info sync.
+func VerifSetLookup(c ClientSets, servers func() []string) {
+	cs := c.(*clientSets)
+	cs.service = "verif"
+	cs.lookupFunc = func(string) []string { return servers() }
+}
+
+// VerifSyncRound is one round of the periodic server-info sync (clientSets.sync).
+func VerifSyncRound(c ClientSets) { c.(*clientSets).sync() }
+
+// VerifHeartRound is one round of heartbeats to the shard leaders (clientSets.clientHeart).
+func VerifHeartRound(c ClientSets) { c.(*clientSets).clientHeart() }
+
+// VerifRealClient creates the client clientSets would create for server.
+func VerifRealClient(c ClientSets, server string) gatewayclientset.Interface {
+	cl, err := c.(*clientSets).createClient(server)
+	if err != nil {
+		panic(err)
 	}
+	return cl
 }
 
 // VerifSetClient makes client the (cached) client of the leader of shard, so that ClientFor returns it
